@@ -11,7 +11,7 @@ func init() {
 		Level:     "model_checking",
 		Build:     "sched-race",
 		Technique: "stateless model checking of the real code under a cooperative scheduler (check-time instrumentation), all schedules up to a preemption bound with happens-before state caching; every schedule is also a race-detector execution whose happens-before graph contains only the library's own synchronisation (scheduler hand-offs are hidden with RaceDisable/RaceEnable)",
-		Rule:      "scenarios S-A (typed rows text vs int4), S-B (same statement / portal names, different queries and values), S-C (different users + configured global parameters), S-F (one connection in its error / skip-until-Sync window while the other works), S-G (two cleartext-password authentications interleaving), thorough: S-D (3 connections mixed), S-E (COPY-in vs queries); client scripts pre-loaded one message per segment; handlers carry yield points; all schedules with <= 2 preemptions (<= 3 for S-A/S-C in thorough); oracle 1: every connection's transcript and callback trace equal those of the same script served alone; oracle 2: no data-race report",
+		Rule:      "scenarios S-A (typed rows text vs int4), S-B (same statement / portal names, different queries and values), S-C (different users + configured global parameters), S-F (one connection in its error / skip-until-Sync window while the other works), S-G (two cleartext-password authentications interleaving), thorough: S-D (3 connections mixed), S-E (COPY-in vs queries); client scripts pre-loaded one message per segment; handlers carry yield points; all schedules with <= 2 preemptions (quick); thorough: ALL schedules (unbounded, happens-before state cache) for S-A, S-C, S-G and <= 3 preemptions for the others; oracle 1: every connection's transcript and callback trace equal those of the same script served alone; oracle 2: no data-race report",
 		Assumptions: []string{
 			"the race clause relies on the Go race detector's happens-before precision; pgx and the standard library are observed, not instrumented",
 			"per-connection trace recorders are lock-free so that the harness adds no happens-before edge between connections",
